@@ -53,6 +53,7 @@ type vfPlan struct {
 	Tape  []int    `json:"tape"`
 	Expect string  `json:"expect,omitempty"`
 	Tree  string   `json:"tree,omitempty"`
+	Variant string `json:"variant,omitempty"`
 }
 
 type vfSession struct {
